@@ -161,6 +161,15 @@ func (w *World) doSetKeys(in Intent) {
 			}
 			orch = cur
 		}
+	case "poison_orch":
+		// fresh key; the orchestrator is an existing, funded account that no validator has registered - and the
+		// registration is rolled back (see then_fail): that account must stay a stranger
+		l2 := fmt.Sprintf("%s-po%d", label, in.Pick)
+		orch = w.Extra["foreign1"]
+		key = ext.DetEthKey(l2)
+		signKey = key
+		extAddr = eip55(ext.KeyAddr(key))
+		in.Mut = "then_fail"
 	case "steal_orch", "steal_first_orch":
 		o := w.val(in.Pick)
 		if oo, ok := o.Orch[chain]; ok {
